@@ -169,6 +169,17 @@ func kidOf(d, fam string) string { return d + "#" + fam }
 // fragKid: a key id of the attacker whose fragment is the legitimate key id
 func fragKid(fam string) string { return attackerDID + "#" + legitDID + "-" + fam }
 
+// keyMembers: extra members a published / embedded JWK may carry besides the key material (RFC 7517 alg, use, key_ops)
+var keyMembers = map[string]map[string]any{
+	"algRS256": {"alg": "RS256"}, "algRS384": {"alg": "RS384"}, "algRS512": {"alg": "RS512"},
+	"algPS256": {"alg": "PS256"}, "algPS384": {"alg": "PS384"}, "algPS512": {"alg": "PS512"},
+	"algES256": {"alg": "ES256"}, "algES384": {"alg": "ES384"}, "algES512": {"alg": "ES512"}, "algEdDSA": {"alg": "EdDSA"},
+	"useenc": {"use": "enc"}, "opsenc": {"key_ops": []string{"encrypt", "wrapKey"}},
+	"algRSA-OAEP-256": {"alg": "RSA-OAEP-256"}, "algECDH-ES": {"alg": "ECDH-ES"},
+}
+
+func memberKid(d, fam, name string) string { return d + "#" + fam + "-" + name }
+
 func buildDoc(d string, keys map[string]txforge.AnyKey) *did.Document {
 	id := did.MustParseDID(d)
 	doc := &did.Document{ID: id, Context: []interface{}{did.DIDContextV1URI()}}
@@ -179,6 +190,18 @@ func buildDoc(d string, keys map[string]txforge.AnyKey) *did.Document {
 		}
 		doc.AddAssertionMethod(vm)
 		doc.AddAuthenticationMethod(vm)
+		// the same key published once more per member set (the JWK of the verification method carries alg / use / key_ops)
+		for name, members := range keyMembers {
+			vm2, err := did.NewVerificationMethod(did.MustParseDIDURL(memberKid(d, f, name)), ssi.JsonWebKey2020, id, keys[f].Public())
+			if err != nil {
+				panic(err)
+			}
+			for k, v := range members {
+				vm2.PublicKeyJwk[k] = v
+			}
+			doc.AddAssertionMethod(vm2)
+			doc.AddAuthenticationMethod(vm2)
+		}
 	}
 	return doc
 }
@@ -236,6 +259,17 @@ func newWorld(t *testing.T) *world {
 		}
 		_ = k.Set(jwk.KeyIDKey, kidOf(legitDID, f))
 		_ = set.AddKey(k)
+		for name, members := range keyMembers {
+			m := w.legit[f].PublicJWK()
+			for a, b := range members {
+				m[a] = b
+			}
+			m["kid"] = memberKid(legitDID, f, name)
+			raw, _ := json.Marshal(m)
+			if k2, err := jwk.ParseKey(raw); err == nil {
+				_ = set.AddKey(k2)
+			}
+		}
 	}
 	w.jar = iam.VerifNewJAR(fakeAuth{client: fakeIAMClient{cfg: map[string]*oauth.OpenIDConfiguration{clientID: {Issuer: clientID, Subject: clientID, JWKs: set}}}}, nil, keyResolver)
 	// API tokens: authorised keys = legit + other party
@@ -402,14 +436,19 @@ type ldBase struct {
 type captureSuite struct {
 	signature.JSONWebSignature2020
 	key txforge.AnyKey
+	alg string // algorithm the signature is really made with ("" = the one that fits the key)
 	tbs []byte
 }
 
 func (s *captureSuite) Sign(_ context.Context, doc []byte, _ string) ([]byte, error) {
 	s.tbs = append([]byte{}, doc...)
+	alg := s.alg
+	if alg == "" {
+		alg = s.key.DefaultAlg()
+	}
 	hdr := txforge.Header(map[string]any{"alg": s.key.DefaultAlg(), "b64": false, "crit": []string{"b64"}})
 	hseg := txforge.B64(hdr)
-	sig := s.key.SignAlg(s.key.DefaultAlg(), append([]byte(hseg+"."), doc...))
+	sig := s.key.SignAlg(alg, append([]byte(hseg+"."), doc...))
 	return []byte(hseg + ".." + txforge.B64(sig)), nil
 }
 
@@ -426,7 +465,9 @@ func (w *world) ldBaseFor(fam string) (*ldBase, error) {
 }
 
 // ldSign issues a credential IN THE NAME OF the legitimate issuer, with a genuine proof made by key under verification method vm.
-func (w *world) ldSign(key txforge.AnyKey, vm string) (*ldBase, error) {
+func (w *world) ldSign(key txforge.AnyKey, vm string) (*ldBase, error) { return w.ldSignAlg(key, vm, "") }
+
+func (w *world) ldSignAlg(key txforge.AnyKey, vm string, alg string) (*ldBase, error) {
 	doc := proof.Document{
 		"@context":          []any{"https://www.w3.org/2018/credentials/v1"},
 		"type":              []any{"VerifiableCredential"},
@@ -435,7 +476,7 @@ func (w *world) ldSign(key txforge.AnyKey, vm string) (*ldBase, error) {
 		"issuanceDate":      time.Now().Add(-time.Minute).UTC().Format(time.RFC3339),
 		"credentialSubject": map[string]any{"id": subjectDID},
 	}
-	suite := &captureSuite{JSONWebSignature2020: signature.JSONWebSignature2020{ContextLoader: w.jsonld.DocumentLoader()}, key: key}
+	suite := &captureSuite{JSONWebSignature2020: signature.JSONWebSignature2020{ContextLoader: w.jsonld.DocumentLoader()}, key: key, alg: alg}
 	ldp := proof.NewLDProof(proof.ProofOptions{Created: time.Now().Add(-time.Minute)})
 	signed, err := ldp.Sign(context.Background(), doc, suite, vm)
 	if err != nil {
@@ -649,6 +690,81 @@ func (w *world) forge(b *base, variant string) ([]forged, error) {
 		return injected("x5c", func(h map[string]any) { h["x5c"] = []string{w.selfSigned(b.attacker)} })
 	case "embedded-private-key":
 		return injected("private-jwk-of-attacker", func(h map[string]any) { h["jwk"] = b.attacker.PrivateJWK() })
+	case "keyalg-disallowed-signed", "keyalg-other-allowed-signed", "hdr-badlabel-keyalg-fit", "key-members-contradict-signing":
+		// the verification key (embedded jwk, or the JWK published in the DID document / client key set) carries members of its
+		// own; the signature is always a REAL signature by the legitimate key, made with the stated algorithm
+		type kv struct{ name, member, hdrAlg, sigAlg string }
+		var list []kv
+		g := group(b.fam)
+		switch variant {
+		case "keyalg-disallowed-signed": // header: allowed alg; key says (and the signature uses) an alg that is not allowed / does not fit
+			if g == "rsa" {
+				for _, a := range []string{"RS256", "RS384", "RS512"} {
+					list = append(list, kv{"hdr-" + b.alg + "-key+sig-" + a, "alg" + a, b.alg, a})
+				}
+			} else if g == "ec" {
+				for _, p := range siblingAlgs(b) {
+					list = append(list, kv{"hdr-" + b.alg + "-key+sig-" + p[0], "alg" + p[0], b.alg, p[0]})
+				}
+			}
+		case "keyalg-other-allowed-signed": // header and key name different ALLOWED algorithms of the family, signature by the key's
+			if g == "rsa" {
+				for _, a := range []string{"PS256", "PS384", "PS512"} {
+					if a != b.alg {
+						list = append(list, kv{"hdr-" + b.alg + "-key+sig-" + a, "alg" + a, b.alg, a})
+					}
+				}
+			}
+		case "hdr-badlabel-keyalg-fit": // mirror: header names an alg that is not allowed, the key an allowed one
+			if g == "rsa" {
+				list = append(list, kv{"hdr-RS256-key-" + b.alg + "-sig-" + b.alg, "alg" + b.alg, "RS256", b.alg},
+					kv{"hdr-RS256-key-" + b.alg + "-sig-RS256", "alg" + b.alg, "RS256", "RS256"})
+			} else {
+				list = append(list, kv{"hdr-ES256K-key-" + b.alg + "-sig-" + b.alg, "alg" + b.alg, "ES256K", b.alg})
+			}
+		default: // genuine signature with the fitting algorithm; the key's members say it is not a signature key
+			enc := "algECDH-ES"
+			if g == "rsa" {
+				enc = "algRSA-OAEP-256"
+			}
+			for _, m := range []string{"useenc", "opsenc", enc} {
+				list = append(list, kv{"key-" + m, m, b.alg, b.alg})
+			}
+			if g != "ed25519" {
+				other := map[string]string{"ec": "algEdDSA", "rsa": "algES256"}[g]
+				list = append(list, kv{"key-" + other + "-of-another-key-type", other, b.alg, b.alg})
+			}
+		}
+		if len(list) == 0 {
+			return nil, errNA
+		}
+		out := []forged{}
+		for _, e := range list {
+			switch {
+			case b.hasJWK:
+				h := withHdr(func(h map[string]any) {
+					j := b.legit.PublicJWK()
+					for k, v := range keyMembers[e.member] {
+						j[k] = v
+					}
+					h["jwk"] = j
+					h["alg"] = e.hdrAlg
+				})
+				out = append(out, forged{name: e.name, jws: b.signed(h, b.payload, b.legit, e.sigAlg)})
+			case b.consumer == "ldproof":
+				lb, err := w.ldSignAlg(b.legit, memberKid(legitDID, b.fam, e.member), e.sigAlg)
+				if err != nil {
+					return nil, err
+				}
+				out = append(out, forged{name: e.name, jws: lb.doc["proof"].(map[string]any)["jws"].(string), doc: lb.doc})
+			case b.consumer == "vcjwt" || b.consumer == "vpjwt" || b.consumer == "jar":
+				h := withHdr(func(h map[string]any) { h["kid"] = memberKid(legitDID, b.fam, e.member); h["alg"] = e.hdrAlg })
+				out = append(out, forged{name: e.name, jws: b.signed(h, b.payload, b.legit, e.sigAlg)})
+			default:
+				return nil, errNA
+			}
+		}
+		return out, nil
 	case "own-private-key-embedded":
 		if !b.hasJWK {
 			return nil, errNA
